@@ -50,11 +50,11 @@ def main(argv):
     seed, shard, nshards = int(seed), int(shard), int(nshards)
     warnings.simplefilter('ignore')
     np.seterr(all='ignore')
-    from vmon.core import Ctx, assert_repo
+    from vmon.core import Ctx, all_cases, assert_repo
     path = assert_repo()
     mod = load_monitor(prop)
     ctx = Ctx(prop, tier, seed)
-    specs = mod.cases(seed, tier)
+    specs = all_cases(mod, seed, tier)
     mine = [(i, s) for i, s in enumerate(specs) if i % nshards == shard]
     t0 = time.time()
     if hasattr(mod, 'setup_worker'):
